@@ -108,7 +108,23 @@ def run(ctx: Ctx, env):
 
     # ---- syntactic rules over grammar.py, rewrite.py, ast.py ------------------------------------------------------
     n_fn = 0
-    for mname in ("odata_query.grammar", "odata_query.rewrite", "odata_query.ast", "odata_query.utils", "odata_query.visitor"):
+    scan = ["odata_query.grammar", "odata_query.rewrite", "odata_query.ast", "odata_query.utils", "odata_query.visitor"]
+    # ... and the modules of the package they import (helpers moved into private modules stay in scope)
+    i = 0
+    while i < len(scan):
+        mm = repo.modules.get(scan[i])
+        i += 1
+        if mm is None:
+            continue
+        for target in mm.imports.values():
+            parts = str(target).split(".")
+            for k in range(len(parts), 0, -1):
+                cand = ".".join(parts[:k])
+                if cand in repo.modules and cand.startswith("odata_query") and cand not in scan and \
+                        not any(cand.startswith(b) for b in ("odata_query.django", "odata_query.sqlalchemy", "odata_query.sql")):
+                    scan.append(cand)
+                    break
+    for mname in scan:
         m = repo.modules.get(mname)
         if m is None:
             continue
@@ -123,7 +139,8 @@ def run(ctx: Ctx, env):
                 t = deco.func if isinstance(deco, ast.Call) else deco
                 nm = t.attr if isinstance(t, ast.Attribute) else (t.id if isinstance(t, ast.Name) else "")
                 if nm in MEMO:
-                    ctx.fail("R1.no-memoisation", key, f"@{ast.unparse(deco)} memoises results across calls", m.loc(fn))
+                    why = _memo_harmless(env, m, fn, owner)
+                    ctx.check(why is None, "R1.no-memoisation", key, f"@{ast.unparse(deco)} memoises results across calls: {why}", m.loc(fn))
             for n in ast.walk(fn):
                 if isinstance(n, (ast.Global, ast.Nonlocal)):
                     ctx.fail("R1.no-shared-state", f"{key}|{'global' if isinstance(n, ast.Global) else 'nonlocal'} {','.join(n.names)}",
@@ -275,6 +292,51 @@ def _check_supplied_left_as_found(ctx: Ctx, env):
                   "AliasRewriter({'a': 'author/'}, parser=p) raises; then p.parse(...) differs from a fresh parser")
     if not writes:
         ctx.ok("R7.supplied-instances-left-as-found", "__init__", f"{len(paths)} paths: no write on the supplied lexer/parser")
+
+
+def _memo_harmless(env, m, fn, owner) -> Optional[str]:
+    """A memoised function is harmless when the cache key determines the result and the cached object cannot change: a
+    module-level function of str/int/bool parameters, evaluated, that writes nothing and returns only immutable values
+    (constants, text, tuples of those). Returns None if harmless, else the reason."""
+    if owner:
+        return "a method: the cache holds on to instances and is shared by all of them"
+    a = fn.args
+    if a.vararg or a.kwarg:
+        return "variadic parameters"
+    ok_ann = {"str", "int", "bool", "float", "Optional[str]", "Optional[int]"}
+    for p in a.posonlyargs + a.args + a.kwonlyargs:
+        if p.annotation is None or ast.unparse(p.annotation) not in ok_ann:
+            return f"parameter `{p.arg}` is not declared as an immutable scalar (str/int/bool)"
+    from ..values import Const, PyTuple, Str, Sym
+    interp = env.interp()
+    params = [p.arg for p in a.posonlyargs + a.args]
+    hints = {p.arg: ("str" if "str" in ast.unparse(p.annotation) else "int") for p in a.posonlyargs + a.args + a.kwonlyargs}
+
+    def immutable(v) -> bool:
+        from ..values import AltV
+        if isinstance(v, (Const, Str)):
+            return not isinstance(getattr(v, "v", None), (list, dict, set))
+        if isinstance(v, PyTuple):
+            return all(immutable(x) for x in v.items)
+        if isinstance(v, AltV):
+            return all(immutable(x) for x in v.options)
+        if isinstance(v, Sym):
+            # text / numbers / parts of a regex match; the result of an arbitrary call may be anything
+            return v.hint in ("str", "int") or v.op in ("param", "splitpart", "rpartition", "partition", "len", "elem", "binop", "rematch1") or (v.op == "getslice" and immutable(v.args[0]))
+        return False
+
+    try:
+        paths = interp.explore(lambda it: (m, fn, [Sym("param", n, hint=hints[n]) for n in params],
+                                           {p.arg: Sym("param", p.arg, hint=hints[p.arg]) for p in a.kwonlyargs if False}, None))
+    except AnalysisError as e:
+        return f"cannot be evaluated ({e})"
+    for x in paths:
+        for ev in x.events:
+            if ev.kind in ("store_global", "store_foreign", "store_attr") or (ev.kind == "mutate"):
+                return f"writes state ({ev.kind} {ev.data.get('target', ev.data.get('attr', ''))})"
+        if x.outcome == "return" and not immutable(x.value):
+            return f"returns a value that is not immutable text/tuples (`{x.value!r:.80}`): every caller shares the cached object"
+    return None
 
 
 def _functions(m):
